@@ -4,6 +4,7 @@ package main
 
 import (
 	"verif/harness/engines/c10"
+	"verif/harness/engines/c11"
 	"verif/harness/engines/c13"
 	"verif/harness/engines/c25"
 	"verif/harness/engines/c26"
@@ -13,6 +14,8 @@ import (
 func main() {
 	sim.WorkerMain(map[string]func() sim.Engine{
 		"C10": c10.New,
+		"C11": c11.New11,
+		"C12": c11.New12,
 		"C13": c13.New,
 		"C25": c25.New,
 		"C26": c26.New,
